@@ -144,6 +144,12 @@ def run(tier, replay=None):
     m1 = tlc("mc/MCMemory", workers=4, timeout=300)
     m2 = tlc("mc/MCMemoryStale", workers=4, timeout=300, allow_violation=True)
     if m2["ok"]: raise Infra("Memory.tla: the KeepStale variant no longer violates NoFault: the model lost its meaning")
+    # the byte budget of the internal buffer when a stored block is admitted although the output cannot take all of it (spec/DeflateBuffer.tla):
+    # the repaired arithmetic keeps both invariants; without the wrapper-header reserve BufferFits fails (defect 22), without the look-ahead
+    # reserve LookAheadBuffered fails (defect 30) - the scenarios TLC finds are the ones the two families below drive through the library
+    db = {var: tlc_cached("mc/MCDeflateBuffer", cfg="MCDeflateBuffer_%s.cfg" % var, wd=wd, workers=2, timeout=300, allow_violation=var in ("orig_fits", "hdronly")) for var in ("fixed", "hdronly_fits", "orig_fits", "hdronly")}
+    if not (db["fixed"]["ok"] and db["hdronly_fits"]["ok"]): raise Infra("DeflateBuffer.tla: the repaired budget violates its invariants")
+    if db["orig_fits"]["ok"] or db["hdronly"]["ok"]: raise Infra("DeflateBuffer.tla: an unrepaired variant no longer violates its invariant: the model lost its meaning")
     parts = {}
     if not replay:
         parts["ec_encode"] = ecfam.run_family("C05", tier, "enc", "", v=v, memory_only=True)
@@ -187,6 +193,7 @@ def run(tier, replay=None):
     dp_calls = sum(p["calls"] for p in parts.values())
     cov = {"evaluations": dp_calls + calls, "distinct_nontrivial": len(dsc) + len(isc) + len(parts), "data_plane_guarded_calls": dp_calls, "streaming_calls": calls,
            "streaming_scenarios": fam, "data_plane": parts, "model": {"module": "spec/Memory.tla", "states": m1["distinct"], "stale_variant_violates": True},
+           "buffer_budget_model": {"module": "spec/DeflateBuffer.tla", "repaired_distinct_states": db["fixed"]["distinct"], "without_header_reserve_BufferFits_fails": True, "without_lookahead_reserve_LookAheadBuffered_fails": True},
            "rule": "every replay runs with each buffer in its own mapping inside a sparse PROT_NONE arena (>= 1 MiB inaccessible on both sides): data-plane entry points (EC encode/dot-product/update/mad/mul, RAID gen/check, all CRC/Adler variants, zero-detect) for every len 0..N with the last byte "
                    "directly before and the first byte directly after an inaccessible page and canaries; streaming deflate/inflate with every input chunk in an exact-size mapping that is unmapped (or recycled and scribbled) the moment it is consumed, the context directly after an inaccessible page, "
                    "output flush against one: pending FULL/SYNC flush + refill-before-drain schedules, avail_out 0..24, chunk sizes around look-ahead/history, minimal level buffers, one-shot inflate with exact and short output; a SIGSEGV/SIGBUS or a touched canary is a violation. "
